@@ -96,6 +96,26 @@ def run_case(case, workdir):
             oracle.taste_accepts(rec, sub, out)
             import shutil
             shutil.rmtree(out, ignore_errors=True)
+    # the command line entry point must write what the API writes (same selection, same limit)
+    if len(set(names)) == len(names):
+        import amr_kitchen.colander.cli as ccli
+        from ..common import run_cli
+        for sel, limit in ((["all"], None), ([names[-1], UNKNOWN, names[0]] if len(names) > 1 else [names[0]], 0),
+                           ([names[0]], ref.nlevels - 1)):
+            out = os.path.join(workdir, "out_cli")
+            shutil_rmtree(out)
+            argv = ["colander", path, "-v"] + sel + (["-l", str(limit)] if limit is not None else []) + ["-o", out]
+            with vpool.controlled():
+                st, val = run_cli(ccli.main, argv)
+            rec.exe([dh, "cli", sel, limit], nontrivial=True)
+            sub = {"argv": argv}
+            if st != "ok":
+                rec.fail("cli_failed", sub, "%s %s" % (st, val))
+                continue
+            pp = oracle.parse_output(rec, sub, out)
+            if pp is not None:
+                oracle.compare_contents(rec, sub, pp, refn.strain(sel, limit))
+            shutil_rmtree(out)
     # history on ONE Colander object: straining twice must give the same output tree
     if len(names) >= 2 and len(set(names)) == len(names):
         out = os.path.join(workdir, "out_twice")
@@ -122,6 +142,11 @@ def run_case(case, workdir):
         rec.fail("input_modified", {}, "input plotfile changed")
     rec.sample({"desc": desc, "ops": "strain(variables, limit) over all ordered selections and limits"})
     return rec.result()
+
+
+def shutil_rmtree(p):
+    import shutil
+    shutil.rmtree(p, ignore_errors=True)
 
 
 def scope_layouts(desc):
